@@ -337,3 +337,63 @@ Proof.
   split; [vm_compute; reflexivity|]. split; [vm_compute; reflexivity|]. split; [vm_compute; reflexivity|].
   vm_compute. exists (0%nat, 0%nat). reflexivity.
 Qed.
+
+(* ---- budgets assigned on a live object -------------------------------------------- *)
+(* a ChaperoneLoop constructed with max_retries = 4 against a generator that never becomes
+   valid: 5 calls; the budget is then LOWERED to 1 (2 calls), to 0 (1 call), RAISED to 3
+   (4 calls); two assignments without a call in between: the last one (2) wins (3 calls);
+   every result degraded, tagged, confidence 0; the generator goes on counting (k) *)
+Definition ex_heal_ops : list hop :=
+  [HHeal; HSetRetries 1; HHeal; HSetRetries 0; HHeal; HSetDecay (1 # 2); HSetRetries 3; HHeal;
+   HSetRetries 4; HSetRetries 2; HHeal; HSetRetries (-1); HHeal].
+Example ex_heal_reconfigured :
+  let h := heal_hist ex_gen_bad ex_validate (mkHCfg 4 (1 # 8)) 0 ex_heal_ops in
+  map (fun x => hc_retries (fst (fst x))) h = [4; 1; 0; 3; 2; -1] /\
+  map (fun x => length (h_calls (snd x))) h = [5; 2; 1; 4; 3; 0]%nat /\
+  map (fun x => snd (fst x)) h = [0; 5; 7; 8; 12; 15]%nat /\
+  map (fun x => h_outcome (snd x)) h = repeat Degraded 6 /\
+  map (fun x => h_tagged (snd x)) h = repeat true 6 /\
+  count_heals ex_heal_ops = 6%nat.
+Proof. vm_compute. repeat split. Qed.
+
+(* the hypotheses of c18_heal_call_uses_the_budget_configured_when_made met by a prefix with
+   three assignments: the call after it runs under (max_retries 0, decay 1/2) *)
+Example ex_heal_current_config :
+  let pre := [HHeal; HSetRetries 1; HHeal; HSetDecay (1 # 2); HSetRetries 0] in
+  fold_left hcfg_apply pre (mkHCfg 4 (1 # 8)) = mkHCfg 0 (1 # 2) /\ count_heals pre = 2%nat /\
+  option_map (fun x => length (h_calls (snd x)))
+    (nth_error (heal_hist ex_gen_bad ex_validate (mkHCfg 4 (1 # 8)) 0 (pre ++ HHeal :: [HHeal])) 2)
+  = Some 1%nat.
+Proof. vm_compute. repeat split. Qed.
+
+(* a confidence_decay assigned between calls: healed at the second retry with decay 1/8 ->
+   3/4, with decay 1/2 -> 0 (still HEALED, not tagged: the property asks confidence 0 only of
+   a non-valid result) *)
+Example ex_heal_decay_assigned :
+  let h := heal_hist (fun k ec => ex_gen_heal (k mod 3) ec) ex_validate (mkHCfg 3 (1 # 8)) 0
+                     [HHeal; HSetDecay (1 # 2); HHeal] in
+  map (fun x => h_outcome (snd x)) h = [Healed; Healed] /\
+  map (fun x => Qred (h_conf (snd x))) h = [3 # 4; 0]%Q /\
+  map (fun x => h_tagged (snd x)) h = [false; false].
+Proof. vm_compute. repeat split. Qed.
+
+(* a swarm of stuck workers (collapse at step 3) constructed with max_regenerations = 3,
+   max_steps_per_worker = 10: 4 workers of 3 steps; regenerations lowered to 0: 1 worker;
+   steps lowered to 2: 1 worker of 2 steps; both raised (2, 5): 3 workers of 3 steps; threshold
+   assigned 1 (never collapses): 3 workers of 5 steps; the counter runs on: 4, 5, 6, 9, 12 *)
+Definition ex_swarm_ops : list sop :=
+  [SSupervise; SSetRegen 0; SSupervise; SSetSteps 2; SSupervise; SSetRegen 2; SSetSteps 5; SSupervise;
+   SSetThr 1; SSupervise].
+Definition ex_swarm_hist :=
+  swarm_obj_hist (fun (_ : nat) (_ : nat) (_ : unit) => (0%nat, true))
+                 (fun (e : nat) (_ : nat) => (S e, WOut 7 false))
+                 (fun _ _ => tt) (fun e _ => e) tt (mkSCfg 3 10 (1 # 2)) ex_swarm_ops sobj0 0%nat.
+Example ex_swarm_reconfigured :
+  map (fun x => let '(c, _, _, _, _) := x in (sc_regen c, sc_steps c)) ex_swarm_hist
+    = [(3, 10); (0, 10); (0, 2); (2, 5); (2, 5)] /\
+  map (fun x => let '(_, _, r, _, _) := x in map w_steps (s_workers r)) ex_swarm_hist
+    = [[3; 3; 3; 3]; [3]; [2]; [3; 3; 3]; [5; 5; 5]]%nat /\
+  map (fun x => let '(_, _, _, _, o2) := x in so_counter o2) ex_swarm_hist = [4; 5; 6; 9; 12]%nat /\
+  map (fun x => let '(_, _, r, _, _) := x in s_success r) ex_swarm_hist = repeat false 5 /\
+  count_sups ex_swarm_ops = 5%nat.
+Proof. vm_compute. repeat split. Qed.
